@@ -26,9 +26,27 @@ newton = Contract(
 )
 
 
+# ghost function: the value of the right-hand side at a state (what a cached `Fx` must equal)
+F_at = z3.Function('F_at', fresh_vec('x').sort(), fresh_vec('x').sort())
+
+
+def _fx_pre(ex, st, call, args, kw):
+    """call-site precondition of the step functions: a supplied Fx is the right-hand side at the state x that is passed"""
+    x, Fx = args[3], kw.get('Fx')
+    if Fx is None:
+        return
+    if not (z3.is_expr(Fx) and z3.is_expr(x)):
+        ex.oblige(st, 'pre', call, False, 'Fx passed to the stepper is a right-hand side value', label='stepper:Fx-is-F-at-x:L+%d' % ex.rel(call))
+        return
+    ex.oblige(st, 'pre', call, Fx == F_at(x), 'the cached right-hand side passed to the stepper is F at the state passed to it',
+              label='stepper:Fx-is-F-at-x:L+%d' % ex.rel(call))
+
+
 def _stepper2(ex, st, call, *args, **kw):
+    _fx_pre(ex, st, call, args, kw)
     xn = fresh_vec('xnew')
-    return Outcomes(VTuple((xn, fresh_vec('Fx'))), Raise('NoConvergenceError'))
+    # stiffly accurate schemes return F at the new state, the others None
+    return Outcomes(VTuple((xn, F_at(xn))), VTuple((xn, None)), Raise('NoConvergenceError'))
 
 
 const_step = Contract(
@@ -39,7 +57,8 @@ const_step = Contract(
     callees={'stepper': _stepper2},
     options={'identity_wrappers': ('tqdm',)},
     loops={0: LoopSpec(r'for i in tqdm\(range\(num_iter\)\)',
-                       inv=lambda s: [('len-times', s.times.len == s.i + 1), ('len-solutions', s.solutions.len == s.i + 1),
+                       inv=lambda s: [('cached-rhs', True if s.Fx is None else s.Fx == F_at(s.x)),
+                                      ('len-times', s.times.len == s.i + 1), ('len-solutions', s.solutions.len == s.i + 1),
                                       ('times', ForAll('k', lambda k: Implies(And(0 <= k, k <= s.i), s.times[k] == s.t0 + z3.ToReal(k) * s.tau)))])},
     ensures=lambda s: [('one-state-per-time', s.result[0].len == s.result[1].len),
                        ('times', ForAll('k', lambda k: Implies(And(0 <= k, k < s.result[0].len), s.result[0][k] == s.t0 + z3.ToReal(k) * s.tau))),
@@ -48,10 +67,11 @@ const_step = Contract(
 
 
 def _stepper3(ex, st, call, *args, **kw):
+    _fx_pre(ex, st, call, args, kw)
     x = args[3]
     xn = fresh_vec('xnew')
     st.pc.append(vlen_fn(xn) == vlen_fn(x))
-    return Outcomes(VTuple((xn, fresh_vec('xhat'), fresh_vec('Fxnew'))), Raise('NoConvergenceError'))
+    return Outcomes(VTuple((xn, fresh_vec('xhat'), F_at(xn))), VTuple((xn, fresh_vec('xhat'), None)), Raise('NoConvergenceError'))
 
 
 def _adaptive_inv(s):
@@ -59,7 +79,8 @@ def _adaptive_inv(s):
     return [('tau-positive', s.tau > 0), ('lens', n == s.solutions.len), ('nonempty', n >= 1),
             ('t-is-last', s.t == t[n - 1]),
             ('increasing', ForAll('k', lambda k: Implies(And(0 <= k, k < n - 1), t[k] < t[k + 1]))),
-            ('accepted-only', s.g_acc), ('factors', s.g_fac), ('x-len', vlen_fn(s.x) >= 1)]
+            ('accepted-only', s.g_acc), ('factors', s.g_fac), ('x-len', vlen_fn(s.x) >= 1),
+            ('cached-rhs', True if s.Fx is None else s.Fx == F_at(s.x))]
 
 
 adaptive_step = Contract(
